@@ -265,7 +265,7 @@ META = {
    text='Same enumeration as C01 with a different oracle: every phrase emitted by polyseed_encode must be byte-identical to the phrase computed by the reference model (README bit layout, golden word lists, coin XOR, separator, NFC), the stored check value must equal the reference GF(2048) value, and re-encoding after unrelated operations must give the same bytes. A bit-linear packing is pinned by the single-bit seeds and their pairs, which are enumerated completely.',
    note='Trusted: ' + TB + '.'),
  'C20': dict(engine='E3', design_ref='DESIGN.md section 5 C20', technique='stateless exploration of all thread interleavings under a controlled scheduler (custom __tsan_* runtime, state caching), race + serial-equivalence oracles',
-   text='All interleavings of three multi-threaded harnesses (create/encode/decode/free; load/crypt/keygen/encode/decode_explicit/free; 3 threads with colliding language and coin) at the granularity of single accesses to the library writable static data are executed on the real library (2 555 + 4 164 + 30 688 states on the unchanged tree, complete without a preemption bound). Every execution is checked for a write/any-access pair by different threads on a shared byte, for accesses to another thread seed memory, and for per-thread transcripts equal to a serial run. A free-running pass of the same bodies under real ThreadSanitizer keeps uninstrumented libc helpers visible.',
+   text='All interleavings of four (thorough: five) multi-threaded harnesses (create/encode/decode/free; load/crypt/keygen/encode/decode_explicit/free; 3 threads with colliding language and coin; Chinese auto-detection + non-ASCII crypt against Korean create/encode/decode; thorough: 3 threads x full create/encode/decode/free cycles, 114 305 states) at the granularity of single accesses to the library writable static data are executed on the real library (2 555 + 4 164 + 30 688 + 3 114 states on the unchanged tree, each complete without a preemption bound). Every execution is checked for a write/any-access pair by different threads on a shared byte, for accesses to another thread seed memory, and for per-thread transcripts equal to a serial run. A free-running pass of the same bodies under real ThreadSanitizer keeps uninstrumented libc helpers visible.',
    note='Trusted: ' + TB + ', gcc -fsanitize=thread instrumentation, pthreads/semaphores. Sequential consistency; 2-3 threads; a state cap switches to iterative preemption bounding and is reported.'),
  'C16': dict(engine='E4', design_ref='DESIGN.md section 5 C16', technique='enumeration of every API function x exit path x compiler build on a painted stack with full residue scan; wipe-before-free checked on every free of the E1 state space',
    text='Each of 60 (function, exit) cells - create OK/unsupported/memory, load OK/memory/5 format causes/checksum/unsupported, both decoders x OK/word count/language/checksum/memory/unsupported x 3 languages, multiple languages, encode in composing and plain languages, crypt with ASCII and non-ASCII password, keygen, store, getters, free - is executed on a dedicated 256 KiB stack painted 0xA5; afterwards the complete dead stack and the library writable sections are searched for the secret bytes, the encrypted secret, the mask, the password (raw, NFKD), every phrase word and adjacent word-index pairs (u16/u32/u64). At every free the block must be zero and covered by an earlier injected memzero. Repeated for each compiler build.',
@@ -286,25 +286,25 @@ META = {
    text='E1: one or two seeds, 7 passwords (empty, ASCII, composed/decomposed/compatibility-equivalent non-ASCII, 400 characters), crypt/reload/recode/free to fixpoint with every state compared with the model (XOR, truncate, toggle, re-checksum) and every KDF call compared byte for byte (NFKD password without terminator, salt, 10000, 32). E2: the stub returns every value of every mask byte, all 256 x 64 combinations at the truncation corner; result must equal the model, be loadable/encodable, and a second application must restore the original.',
    note='Trusted: ' + TB + '. 2^256 masks are covered byte-wise (XOR acts byte-wise, the only cross-byte effect is the check value, which is compared for every case).'),
  'C13': dict(engine='E1', design_ref='DESIGN.md section 5 C13', technique='explicit-state BFS over API histories of the real library to fixpoint, reference model compared on every transition and in every state',
-   text='All reachable states of the 2-slot (thorough: 3-slot, 483 420 states) API machine over a closed alphabet of 27 (49) operations are visited; each transition status/output equals the abstract model, and in every new state every live seed is observed (store, getters, KDF inputs for 2 coins, phrases in all 10 languages, reload, decode in 3 languages) and must equal the model seed, with queries leaving the state key unchanged. Hidden state is part of the key, so it cannot be merged away.',
+   text='All reachable states of the 2-slot (thorough: 3-slot) API machine over a closed alphabet of 34 operations (2 slots) are visited - create (incl. high argument bits and a clock after 2107), free, free(NULL), crypt, store/load, encode/decode (3 variants), enable_features, re-injection of two dependency tables, an armed allocation fault, and seven calls that must fail and change nothing (bad images, garbage, wrong coin, phrases that two lists recognise) - 7 788 states on the unchanged tree, keyed on (implementation state, model state) pairs; each transition status/output equals the abstract model, and in every new state every live seed is observed (store, getters, KDF inputs for 2 coins, phrases in all 10 languages, reload, decode in 3 languages) and must equal the model seed, with queries leaving the state key unchanged. Hidden state is part of the key, so it cannot be merged away.',
    note='Trusted: ' + TB + '. Bounded by the alphabet (argument domains) and the number of slots, not by depth.'),
  'C15': dict(engine='E1+E2', category='fault_enumeration', design_ref='DESIGN.md section 5 C15', technique='allocation-fault arming as a state component of the explicit-state search + entry point x outcome class x failing-request enumeration',
-   text='In the E1 search an allocation fault can be armed in every state; every transition is therefore executed fault-free and with its allocation request failing, and exploration continues after the failure. After every call the ledger must equal the number of live seeds, no unknown/repeated/NULL pointer may reach free, free(NULL) makes no dependency call, a fired fault yields the memory status. e2_fault crosses each entry point and outcome class (OK, word count, language, multiple languages, checksum, 6 format causes, unsupported) with fail_at in {none,0,1} and with injected and libc allocators.',
+   text='In the E1 search an allocation fault can be armed in every state; every transition is therefore executed fault-free and with its allocation request failing, and exploration continues after the failure. After every call the ledger must equal the number of live seeds, no unknown/repeated/NULL pointer may reach free, free(NULL) makes no dependency call, a fired fault yields the memory status. e2_fault crosses each entry point and outcome class (OK, word count, language, multiple languages, checksum, 6 format causes, unsupported) with every allocation request of the call made to fail in turn (the number of requests is learnt from a fault-free run) and with injected and libc allocators; and every constructor is run under four fill patterns of fresh memory (00, DD, FF, 5A) and must hand out observationally identical seeds.',
    note='Trusted: ' + TB + '. Blocks are junk-filled, so reliance on zeroed memory shows as a model mismatch.'),
  'C18': dict(engine='E1+E2', design_ref='DESIGN.md section 5 C18', technique='explicit-state BFS over injection sequences (16 tables) to fixpoint with call-log oracle, single-bit random tapes, link audit of undefined symbols',
-   text='E1 profile inject: all sequences of polyseed_inject over 2 tables x 8 NULL patterns (caller struct poisoned right after the call), create, free, free(NULL), armed fault, to fixpoint; every create/free must call exactly the currently injected time/alloc/free or libc when the entry is NULL (counting wrappers), random bytes requested once, 19 bytes, written inside the new block. E2 tapes: 152 single-bit and 152 single-zero-bit tapes, byte-18 values, bytes beyond 19, extreme clocks. Link audit: no undefined symbol beyond the permitted libc helpers.',
+   text='E1 profile inject: all sequences of polyseed_inject over 2 tables x 8 NULL patterns (caller struct poisoned right after the call), create, free, free(NULL), armed fault, to fixpoint; after every transition (also in the api profile: decoders, load, crypt, failing calls) time, allocation and release must have gone through exactly the table in force - injected function or libc when the entry is NULL (counting wrappers) - random bytes requested once, 19 bytes, written inside the new block. E2 tapes: 152 single-bit and 152 single-zero-bit tapes, byte-18 values, bytes beyond 19, extreme clocks. Link audit: no undefined symbol beyond the permitted libc helpers.',
    note='Trusted: ' + TB + ', nm.'),
  'C02': dict(engine='E2', design_ref='DESIGN.md section 5 C02', technique='complete enumeration of GF(2^11) one-word polynomials x check values through load, distance conditions on the library table, phrases x 16 x 2047 substitutions and 120 swaps',
    text='All 15 x 2048 x 2048 (position, value, check value) triples go through polyseed_load and exactly the reference product may be accepted; additivity is checked through the create path on all pairs of basis bits (thorough: all pairs of one-word polynomials at 16 position pairs); from the library table every single-word difference must contribute non-zero and no two positions may contribute equally (transposition); base phrases with every word substituted and every pair swapped are decoded by both decoders.',
    note='Trusted: ' + TB + '. The 2^165 x positions space is reduced by GF(2)-linearity, itself checked exhaustively on the field.'),
  'C04': dict(engine='E2', design_ref='DESIGN.md section 5 C04', technique='exhaustive enumeration of coins x birthdays x feature values with a logging KDF stub and page-protected key buffer',
-   text='All 2048 coins x 1024 birthdays x 16 loadable feature values (x secrets) call polyseed_keygen; every argument of the single KDF call is compared with the reference byte strings, mapped back by a constructive inverse, and the key page is made inaccessible when the stub returns so any later access by the library faults. The same abstract seed reached by load, create, decode in 10 languages and crypt twice must give identical inputs (E1 repeats this in every reachable state).',
+   text='All 2048 coins x 1024 birthdays x 16 loadable feature values (x secrets) call polyseed_keygen; every argument of the single KDF call is compared with the reference byte strings, mapped back by a constructive inverse, and the key page is made inaccessible when the stub returns so any later access by the library faults. The same abstract seed reached by load, create (also with argument bits above the three feature bits), decode in 10 languages, crypt twice, and encrypt -> phrase -> decode -> decrypt must give identical inputs (E1 repeats this in every reachable state).',
    note='Trusted: ' + TB + ', mprotect/SIGSEGV.'),
  'C05': dict(engine='E2', design_ref='DESIGN.md section 5 C05', technique='exhaustive enumeration of ordered coin pairs on the real encode/decode',
-   text='English: all 2048 x 2048 ordered (A,B) pairs per seed; other languages all B for 32 A (quick) or all A (thorough, sorted lists). B != A must give the checksum status, B = A the same seed; the phrases for A and coin 0 must differ in exactly the second word, whose index is c1 xor A.',
+   text='English: all 2048 x 2048 ordered (A,B) pairs per seed; other languages all B for 32 A (quick) or all A (thorough, sorted lists). B != A must give the checksum status, B = A the same seed, and that restored seed must encode again to the very same phrases for coin A and coin 0 (no coin residue inside the seed); the phrases for A and coin 0 must differ in exactly the second word, whose index is c1 xor A.',
    note='Trusted: ' + TB + '. Seeds: zeros, ones (+ pseudo-random in thorough).'),
  'C06': dict(engine='E2', design_ref='DESIGN.md section 5 C06', technique='field-wise exhaustive enumeration of 32-byte buffers around valid images against a reference acceptance predicate',
-   text='Every enumerated buffer is given to polyseed_load; status must equal the reference predicate (precedence FORMAT > CHECKSUM > UNSUPPORTED) under masks 0, 5, 7; acceptance implies store(load(buf)) == buf and a seed equal to the fields; rejection leaves nothing allocated. Round trip: seeds made through create must store exactly the reference byte layout.',
+   text='Every enumerated buffer is given to polyseed_load; status must equal the reference predicate (precedence FORMAT > CHECKSUM > UNSUPPORTED) under masks 0, 5, 7; acceptance implies store(load(buf)) == buf and a seed equal to the fields; rejection leaves nothing allocated. Round trip: seeds made through create, and seeds after one or two password operations for all 256 values of the mask byte that overlaps the 150-bit boundary, must store exactly the reference byte layout and load back.',
    note='Trusted: ' + TB + '. 2^256 is covered field-wise, not fully.'),
  'C07': dict(engine='E2', design_ref='DESIGN.md section 5 C07', technique='complete enumeration of 10 x 2048 words, all pairs per language, 16 positions, observed through the API',
    text='Every word is obtained from polyseed_encode output and compared with sha256-pinned golden lists; registry names and order; all C(2048,2) pairs per language for equality, shared 4-letter prefixes, prefix relation; strict order under signed and unsigned bytes; every word at every one of the 16 positions decodes to its own index; NFC/NFKD stability; separators. The 197 three-letter prefix pairs of the frozen English/Spanish lists are listed known findings.',
